@@ -133,6 +133,21 @@ def run(ctx):
     cfg = CFG(th.node)
     phi = th.params[1]
 
+    # `self._H_tau.update((KEY, V) for x in XS)` on the message dict is the loop `for x in XS: self._H_tau[KEY] = V` (dict.update with an
+    # iterable of pairs stores them one by one, in order): written out on the private tree so that the rules below see one spelling
+    class _UpdLoop(ast.NodeTransformer):
+        def visit_Expr(self, n):
+            v = n.value
+            if isinstance(v, ast.Call) and isinstance(v.func, ast.Attribute) and v.func.attr == "update" and astx.self_attr(v.func.value) == "_H_tau" and len(v.args) == 1 \
+                    and isinstance(v.args[0], (ast.GeneratorExp, ast.ListComp)) and len(v.args[0].generators) == 1 and not v.args[0].generators[0].ifs \
+                    and isinstance(v.args[0].elt, ast.Tuple) and len(v.args[0].elt.elts) == 2:
+                g_ = v.args[0].generators[0]
+                st_ = ast.Assign(targets=[ast.Subscript(value=v.func.value, slice=v.args[0].elt.elts[0], ctx=ast.Store())], value=v.args[0].elt.elts[1], type_comment=None)
+                lp_ = ast.For(target=g_.target, iter=g_.iter, body=[st_], orelse=[], type_comment=None)
+                return ast.fix_missing_locations(ast.copy_location(lp_, n))
+            return n
+    _UpdLoop().visit(th.node)
+    ast.fix_missing_locations(th.node)
     # ---- init loop (C17.2) located first, C17.1 refers to it
     init_loop = None
     for s in th.body:
@@ -367,6 +382,16 @@ def run(ctx):
                                             "members are not adjacent in the neighbour order contributes its message more than once", sure=True)
         if not n_gb:
             og.holds(None, None, "no itertools.groupby in MessagePassing", construct="scan")
+
+    with ctx.obligation("C17.5", "the evaluator multiplies the u values it is given (product over the members except the root)") as o:
+        # the fixed point is only as good as the motif equation it iterates: the same conformance C15.4 applies to get_us
+        from gcmstatic.conform import conform as _conform
+        from checks.c15 import REF_US as _REF_US
+        gus_ = prog.func("AutomatedEquation.get_us")
+        if gus_ is None:
+            o.undecided("AutomatedEquation.get_us not found")
+        else:
+            _conform(o, gus_, _REF_US, "get_us = product of u over the members except the root")
 
     with ctx.obligation("C17.5", "message stored under (focal, id) of its own label; evaluator input named by (focal, id) and carrying the products as 'u'", floor=3) as o:
         csc = Scope(ch.node)
